@@ -252,6 +252,81 @@ func observe(conf *confmap.Conf, kind ykind) []*obsPos {
 		}
 		out = append(out, decodeInto(conf, "map[string]string", &t, func() any { return t.M["x"] }))
 	}
+	// The shapes real components use: the collector unmarshals every component section into a non-nil
+	// component.Config (an interface holding a pointer to the component's struct), components embed
+	// (squash) shared structs, keep sub-structs behind pointers, use named string types and implement
+	// confmap.Unmarshaler on top of a sub-Conf. A string field must get the original text in all of them.
+	{
+		t := &heldCfg{}
+		var held any = t
+		out = append(out, decodeInto(conf, "held:string", &held, func() any { return t.S }))
+		t2 := &heldCfg{}
+		var held2 any = t2
+		out = append(out, decodeInto(conf, "held:[]string", &held2, func() any {
+			if len(t2.LS) > 0 {
+				return t2.LS[0]
+			}
+			return "<empty []string>"
+		}))
+		t3 := &heldCfg{}
+		var held3 any = t3
+		out = append(out, decodeInto(conf, "held:map[string]string", &held3, func() any { return t3.MS["x"] }))
+		t4 := &heldCfg{}
+		var held4 any = t4
+		out = append(out, decodeInto(conf, "held:any", &held4, func() any { return t4.K }))
+	}
+	{
+		var t struct {
+			squashed `mapstructure:",squash"`
+		}
+		out = append(out, decodeInto(conf, "squash:string", &t, func() any { return t.S }))
+	}
+	{
+		var t struct {
+			MS *struct {
+				X string `mapstructure:"x"`
+			} `mapstructure:"ms"`
+		}
+		out = append(out, decodeInto(conf, "ptr-struct:string", &t, func() any {
+			if t.MS == nil {
+				return "<nil sub-struct>"
+			}
+			return t.MS.X
+		}))
+	}
+	{
+		var t struct {
+			S namedStr `mapstructure:"s"`
+		}
+		out = append(out, decodeInto(conf, "named:string", &t, func() any { return string(t.S) }))
+	}
+	{
+		t := &selfUnm{}
+		var held any = t
+		out = append(out, decodeInto(conf, "unmarshaler:string", &held, func() any { return t.MS.X }))
+	}
+	{
+		p := &obsPos{name: "sub:string"}
+		var t struct {
+			X string `mapstructure:"x"`
+		}
+		var err error
+		pv, stack := driver.Catch(func() {
+			var sub *confmap.Conf
+			if sub, err = conf.Sub("ms"); err == nil {
+				err = sub.Unmarshal(&t, confmap.WithIgnoreUnused())
+			}
+		})
+		switch {
+		case pv != nil:
+			p.panicv, p.site = fmt.Sprint(pv), driver.PanicSite(stack)
+		case err != nil:
+			p.err = err.Error()
+		default:
+			p.got = t.X
+		}
+		out = append(out, p)
+	}
 	switch kind {
 	case kInt:
 		var t struct {
@@ -291,6 +366,38 @@ func observe(conf *confmap.Conf, kind ykind) []*obsPos {
 	return out
 }
 
+type heldCfg struct {
+	K  any               `mapstructure:"k"`
+	S  string            `mapstructure:"s"`
+	LS []string          `mapstructure:"ls"`
+	MS map[string]string `mapstructure:"ms"`
+}
+
+type squashed struct {
+	S string `mapstructure:"s"`
+}
+
+type namedStr string
+
+// selfUnm unmarshals itself the way components with a custom Unmarshal do: defaults first, then a sub-Conf.
+type selfUnm struct {
+	MS struct {
+		X string `mapstructure:"x"`
+	} `mapstructure:"ms"`
+	S string `mapstructure:"s"`
+}
+
+func (u *selfUnm) Unmarshal(c *confmap.Conf) error {
+	if err := c.Unmarshal(u, confmap.WithIgnoreUnused()); err != nil {
+		return err
+	}
+	sub, err := c.Sub("ms")
+	if err != nil {
+		return err
+	}
+	return sub.Unmarshal(&u.MS, confmap.WithIgnoreUnused())
+}
+
 func treeKind(t any) ykind {
 	switch x := t.(type) {
 	case *xnode:
@@ -328,9 +435,10 @@ func wantAt(tree any, pos string) (want string, wantErr bool, ok bool) {
 	av := confgen.Canon(anyView(tree))
 	sv, hasS := strView(tree)
 	switch pos {
-	case "map:k", "map:s", "map:l", "map:ls", "map:m", "map:ms", "get:k", "get:m::x", "any", "[]any", "map[string]any", "typed:int", "typed:float", "typed:bool", "typed:map", "typed:list":
+	case "map:k", "map:s", "map:l", "map:ls", "map:m", "map:ms", "get:k", "get:m::x", "any", "held:any", "[]any", "map[string]any", "typed:int", "typed:float", "typed:bool", "typed:map", "typed:list":
 		return av, false, true
-	case "string", "[]string", "map[string]string":
+	case "string", "[]string", "map[string]string", "held:string", "held:[]string", "held:map[string]string", "squash:string",
+		"ptr-struct:string", "named:string", "unmarshaler:string", "sub:string":
 		if !hasS {
 			return "", false, false
 		}
@@ -602,7 +710,8 @@ func posClass(p string) string {
 	switch {
 	case strings.HasPrefix(p, "map:"), strings.HasPrefix(p, "get:"):
 		return "stringmap"
-	case p == "string" || p == "[]string" || p == "map[string]string":
+	case p == "string" || p == "[]string" || p == "map[string]string" || strings.HasSuffix(p, ":string") ||
+		p == "held:[]string" || p == "held:map[string]string":
 		return "string-target"
 	case p == "resolve":
 		return "resolve"
